@@ -303,8 +303,17 @@ fn output_result_xml<T: serde::Serialize>(result: T) -> Result<()> {
     // converted.
     // Whether a key (they can come from the server, e.g. rule names) can be used as an XML element name.
     fn is_xml_name(name: &str) -> bool {
-        let start = |c: char| c == '_' || c.is_alphabetic();
-        let rest = |c: char| c == '_' || c == '-' || c == '.' || c.is_alphanumeric();
+        // NameStartChar and NameChar of the XML recommendation (without the colon, which belongs to namespaces):
+        // Unicode's "alphanumeric" is wider (e.g. U+00B2, U+00BC) and would produce tags no parser accepts.
+        let start = |c: char| {
+            matches!(c, 'A' ..= 'Z' | 'a' ..= 'z' | '_'
+                | '\u{C0}' ..= '\u{D6}' | '\u{D8}' ..= '\u{F6}' | '\u{F8}' ..= '\u{2FF}' | '\u{370}' ..= '\u{37D}'
+                | '\u{37F}' ..= '\u{1FFF}' | '\u{200C}' ..= '\u{200D}' | '\u{2070}' ..= '\u{218F}' | '\u{2C00}' ..= '\u{2FEF}'
+                | '\u{3001}' ..= '\u{D7FF}' | '\u{F900}' ..= '\u{FDCF}' | '\u{FDF0}' ..= '\u{FFFD}' | '\u{10000}' ..= '\u{EFFFF}')
+        };
+        let rest = |c: char| {
+            start(c) || matches!(c, '-' | '.' | '0' ..= '9' | '\u{B7}' | '\u{300}' ..= '\u{36F}' | '\u{203F}' ..= '\u{2040}')
+        };
         let mut chars = name.chars();
         chars.next().is_some_and(start) && chars.all(rest) && !name.to_ascii_lowercase().starts_with("xml")
     }
